@@ -1,6 +1,6 @@
 (** Property C11 -- dump() reproduces the terminal for all future input (see DESIGN.md section 13 for what is proved).
     Only pinned statements, closed by [exact], with their assumptions printed. *)
-From Avt Require Import Oracles.Rel Proofs.Inv Proofs.PenInv Proofs.ParamChop Proofs.Future Proofs.FutureInst Proofs.DumpParserRT Proofs.DumpPen Proofs.DumpRows Proofs.InvStep.
+From Avt Require Import Oracles.Rel Spec.Screen Proofs.Inv Proofs.ParserInv Proofs.PenInv Proofs.ParamChop Proofs.Future Proofs.FutureInst Proofs.DumpParserRT Proofs.DumpPen Proofs.DumpRows Proofs.InvStep.
 
 (** THE FUTURE HALF: the observational equivalence established by a restore (executable statement holds_C11: same visible cells, pens, wrap marks, cursor, visibility, every mode, margins, tabs, charsets, saved contexts, parser state) is preserved by EVERY further input string - two terminals related by it stay related (and never panic) whatever is fed to both. Scrollback, its limit, dirty / trim flags and the discarded parked alternate buffer may differ. (PWf: parser data cleared in entry states - holds for every state reachable by feeding, see Proofs/Future.v.) *)
 Theorem C11_future : forall a b s a' oa, Inv a -> Inv b -> parked_ok (vterm a) -> parked_ok (vterm b) -> PWf (vparser a) -> PWf (vparser b) -> holds_C11 a b = true -> feed_str a s = Ok (a', oa) -> exists b' ob, feed_str b s = Ok (b', ob) /\ holds_C11 a' b' = true.
